@@ -4,7 +4,9 @@ Copies a confirmed seeded change from /tmp/seed/<id>.out to /verif/seeded/<name>
 import sys, os, shutil, json
 sid, name, prop, demo, needs, caught = sys.argv[1:7]
 notes = sys.argv[7] if len(sys.argv) > 7 else ''
-src = '/tmp/seed/%s.out' % sid
+src = '/tmp/seed/%s.out' % sid  # sid may be 'C03/A'
+if '/' in sid:
+    src = '/tmp/seed/%s.out/%s' % tuple(sid.split('/', 1))
 dst = '/verif/seeded/%s' % name
 os.makedirs(dst, exist_ok=True)
 for f in (os.listdir(src) if os.path.isdir(src) else []):
